@@ -19,7 +19,7 @@ import z3
 from vf.pyvc.contracts import Contract, Registry
 from vf.pyvc.engine import MObj, OutOfSubset, PyConst, lift
 from vf.pyvc.run import run_contracts
-from vf.pyvc.types import TBool, TInt, TObj, TOpt, TReal, V
+from vf.pyvc.types import TNone, TBool, TInt, TObj, TOpt, TReal, V
 
 ARR = TObj("Arr")
 A, R, I = ARR.sort(), z3.RealSort(), z3.IntSort()
@@ -46,6 +46,8 @@ def numpy_axioms():
 
 
 def _real(v):
+    if v.ty is TNone:
+        return z3.Real("real!of-None")     # only reachable under a guard that excludes None: unconstrained
     if isinstance(v.ty, TOpt):
         v = V(v.ty.t, v.ty.sort().v(v.t))
     if v.ty is TInt:
